@@ -312,6 +312,10 @@ def write_replay(prop, seed, idx, kind, clause, case, detail, how):
 def decide(prop, tier, seed, proof, streams, t0, level_note="", trusted=(), search=None, extra_cov=None, replay_how=None):
     """print VIOLATION / KNOWN-FINDING lines, write evidence, return exit code"""
     known = load_known(prop)
+    import glob
+    for old in glob.glob(os.path.join(ROOT, "replays", prop + "-*.txt")):
+        try: os.remove(old)
+        except OSError: pass
     viol = []        # (kind, clause, case, detail)
     nknown = 0
     def classify(kind, clause, case, detail):
